@@ -1,3 +1,4 @@
+mod http;
 mod ilv;
 mod loops;
 mod props;
